@@ -58,6 +58,29 @@ func familyF1(thorough bool) []*scen.Cell {
 	return cells
 }
 
+// familyHiddenTypes: member types declared in a file that the convergen build tag EXCLUDES (a legitimate way to keep code that
+// uses the generated functions away from the generator): under the tag they do not resolve.
+func familyHiddenTypes() []*scen.Cell {
+	var cells []*scen.Cell
+	for tc := 0; tc < 2; tc++ {
+		for st := 0; st < 2; st++ {
+			files := map[string]string{
+				"kinds.go": "//go:build !convergen\n\npackage x\n\ntype Kind int\n\ntype Label string\n\nfunc (k Kind) String() string { return \"k\" }\n",
+				"model.go": "package x\n\ntype S struct {\n\tA Kind\n\tB int\n\tC Kind\n\tE int\n}\n\ntype D struct {\n\tA Label\n\tB Kind\n\tC Kind\n\tE int\n}\n",
+			}
+			files["setup.go"] = "//go:build convergen\n\npackage x\n\ntype Convergen interface {\n" + strings.Join(func() []string {
+				var ls []string
+				for _, n := range scen.Toggles(0, 0, st, tc, 0) {
+					ls = append(ls, "\t// "+n+"\n")
+				}
+				return ls
+			}(), "") + "\tConv(*S) *D\n}\n"
+			cells = append(cells, &scen.Cell{ID: fmt.Sprintf("f1hidden_%d_%d", tc, st), Family: "F1-types-hidden-by-the-tag", Files: files, Meta: f1Meta{Tog: []int{0, 0, st, tc, 0}}})
+		}
+	}
+	return cells
+}
+
 // ---------------------------------------------------------------------------
 // F-name — name alphabet: how the source offers (or does not offer) a member
 // for destination field Name.
@@ -421,6 +444,8 @@ func I2IE(i int) (int, error) { return i + 3, nil }
 func I2S(i int) string        { return "s" }
 func N2N(n N) N               { return n }
 func PT2I(p PT) int           { return p.A + 4 }
+func Vsum(xs ...int) int      { return len(xs) }
+func (s *S) Lab(p string) int { return len(p) }
 func Any2I(v interface{}) int {
 	if _, isPtr := v.(*PT); isPtr {
 		return 5
@@ -430,8 +455,8 @@ func Any2I(v interface{}) int {
 `
 
 var f4Dst = []string{"X", "Y", "N.A", "M.A", "Q.A", "N", "Zz", "x"}
-var f4Src = []string{"A", "N.A", "G()", "GN().A", "P.A", "E", "Emb.E", "GE()", "B", "g", "Zz", "$1.A", "$2", "$3.A", "$1.G()", "$0", "$9", "$2.A", "V()", "GP().A", "a", "N", "$1.N", "GEN().A", "P", "GN().PA()", "N.PA()"}
-var f4Conv = []string{"I2I", "P2I", "I2IE", "I2S", "N2N", "ext.Itoa", "Other", "Missing", "PT2I", "Any2I"}
+var f4Src = []string{"A", "N.A", "G()", "GN().A", "P.A", "E", "Emb.E", "GE()", "B", "g", "Zz", "$1.A", "$2", "$3.A", "$1.G()", "$0", "$9", "$2.A", "V()", "GP().A", "a", "N", "$1.N", "GEN().A", "P", "GN().PA()", "N.PA()", "Lab()"}
+var f4Conv = []string{"I2I", "P2I", "I2IE", "I2S", "N2N", "ext.Itoa", "Other", "Missing", "PT2I", "Any2I", "Vsum", "ext.hidden"}
 
 type f4Meta struct {
 	Kind    string
@@ -537,6 +562,7 @@ func familyF4(thorough bool) []*scen.Cell {
 		{Notations: []string{":style arg"}, Sig: "GenArg(*PT) *AA"},
 		{Notations: []string{":recv p"}, Sig: "GenRecv(*PT) *AA"},
 		{Sig: "GenErr(*PT) (*AA, error)"},
+		{Sig: "GenTwo(*PT, int) *AA"}, // takes an additional argument: cannot be called as F(x)
 	} {
 		name := om.Sig[:strings.IndexByte(om.Sig, '(')]
 		for err := 0; err < 2; err++ {
